@@ -269,13 +269,16 @@ fn run(ctx: &Ctx) {
     if !ctx.run_prop("range_edges", RULE, ctx.cases(400, 30_000), strat_edges, check) {
         return;
     }
-    ctx.run_prop("embedded_table", RULE, ctx.cases(600, 60_000), strat_embedded, check);
+    if !ctx.run_prop("embedded_table", RULE, ctx.cases(600, 60_000), strat_embedded, check) {
+        return;
+    }
+    crate::props::proc_checks::c07_cli(ctx);
 }
 
 fn replay(name: &str, case: &Value) -> Option<Verdict> {
     match name {
         "every_calendar_date" => Some(replay_case::<YearBlock, _>(case, check_dates).unwrap_or_else(Verdict::Fail)),
         "any_years" | "range_edges" | "embedded_table" => Some(replay_case::<Case, _>(case, check).unwrap_or_else(Verdict::Fail)),
-        _ => None,
+        other => crate::props::proc_checks::replay(other, case),
     }
 }
